@@ -19,9 +19,9 @@ def wellformed_result(res):
     """(candidates: list of str, statistics: tuple of 4 numbers)"""
     try:
         cands, stats = res
-        if not isinstance(cands, list) or any(not isinstance(c, str) for c in cands):
+        if not isinstance(cands, (list, tuple)) or any(not isinstance(c, str) for c in cands):
             return False
-        if not isinstance(stats, tuple) or len(stats) != 4:
+        if not isinstance(stats, (list, tuple)) or len(stats) != 4:
             return False
         for x in stats:
             float(x)
